@@ -161,6 +161,57 @@ def _composed(ctx, formats=("text",)):
         dscommon.run_family(ctx, "C15T", fmt=fmt, fresh=False, limit=40, always_nontrivial=True)
 
 
+def _ens_chunk(objs):
+    """family C15Ens: -T applies to every ensemble member; the probability of a threshold the files do not store is the fraction of the
+    pre-aggregated members at or below it, for each input from ITS OWN members (the two files share their base name on purpose)"""
+    import os
+    import numpy as np
+    import verif.input
+    import verif.field
+    import verif.axis
+    from harness import dsreplay, materialize as mat
+    from harness.dsreplay import quiet, exc_site
+    out = []
+    n = 0
+    wd = par.workdir()
+    for o in objs:
+        paths = []
+        for k, inp in enumerate(o["inputs"]):
+            d = os.path.join(wd, "exp%d" % k)
+            os.makedirs(d, exist_ok=True)
+            p = os.path.join(d, "ens.txt")
+            mat.write_text(p, dsreplay.with_extra(inp))
+            paths.append(p)
+        rep = {"kind": "ens-preagg", "dataset": {k: o[k] for k in o if k not in ("req", "ensprob")}}
+        try:
+            with quiet():
+                inputs = [verif.input.get_input(p) for p in paths]
+                data = dsreplay.make_data(o, inputs, None)
+                for ti, thr in enumerate(o["ensthr"]):
+                    for j in range(len(inputs)):
+                        got = np.asarray(data.get_scores(verif.field.Threshold(float(thr)), j, verif.axis.All(), None), float).reshape(-1)
+                        want = np.array([mat.num(v) for v in o["ensprob"][j][ti]], float)
+                        n += 1
+                        if got.shape != want.shape or not np.allclose(got, want, rtol=2e-6, atol=1e-7, equal_nan=True):
+                            out.append(("ens:preagg-probability", "-T %r: P(X <= %s) of input %d from its pre-aggregated members: expected %r observed %r"
+                                        % (o["opts"]["T"], thr, j + 1, want.tolist(), got.tolist()), rep))
+        except SystemExit:
+            out.append(("ens:error-exit", "-T %r on ensemble inputs ended in an error exit" % (o["opts"]["T"],), rep))
+        except Exception as e:
+            out.append((exc_site(e), "-T %r on ensemble inputs: %r" % (o["opts"]["T"], e), rep))
+    return n, out
+
+
+def _ens(ctx):
+    res = tlc.run("MC_Dataset", "MC_Dataset_C15Ens", tag=ctx.pid + "_ens", timeout_s=900)
+    ctx.add_tlc("MC_Dataset/C15Ens", res, {"Family": "C15Ens"})
+    for n, divs in par.pmap(_ens_chunk, [[o] for o in res.emitted], chunk=1):
+        ctx.evaluations += n
+        ctx.traces += 1
+        for site, detail, rep in divs:
+            ctx.diverge(site, rep, detail=detail)
+
+
 def run(ctx):
     ctx.rule = ("case = vector x 14 aggregators + 5 quantile levels | 3-d array x dimension x aggregator | (lead-time grid in file order, "
                 "window length, aggregator); non-trivial = ties or missing values | every array | grid with >= 2 points")
@@ -170,11 +221,13 @@ def run(ctx):
         _run(ctx, "arr", limit=1200)
         _run(ctx, "win", limit=2500)
         _composed(ctx, formats=("text", "netcdf"))
+        _ens(ctx)
     else:
         _run(ctx, "vec")
         _run(ctx, "arr")
         _run(ctx, "win")
         _composed(ctx, formats=("text", "netcdf"))
+        _ens(ctx)
         ctx.exhaustive = True
     par.clean_workdirs()
 
